@@ -6,7 +6,7 @@ from ..spec import Clock
 from ..mon_output import storage_series
 
 PROPERTY = 'C05'
-CASES = {'quick': 156, 'thorough': 2400}
+CASES = {'quick': 468, 'thorough': 3744}
 BUDGET_S = {'quick': 240, 'thorough': 2400}
 RULE = ('case = 1-2 storages (inflow, start != end level, efficiency, one or two nodes, windows, time blocks, no_simult_in_out, '
         'max_store_duration, coarse frequency, storage not attached to the last node) embedded in a random portfolio with markets (negative '
@@ -16,8 +16,8 @@ RULE = ('case = 1-2 storages (inflow, start != end level, efficiency, one or two
 ASSUMPTIONS = ['reported series are compared inside the storage window, for coarse-frequency storages at the ends of the coarse steps',
                'time blocks are generated with start_level == end_level and block sizes aligned with the asset start (per-block reading with start != end is not specified sharply)',
                'tolerance 1e-6*(1+size+sum|x|)']
-MIN_NONVACUOUS = {'quick': {'storage.level_in_bounds': 80, 'storage.end_level': 80, 'storage.rate_limits': 80, 'storage.reported_fill_level': 60,
-                            'storage.reported_charge_discharge': 60, 'storage.no_simultaneous': 8, 'storage.max_store_duration': 8, 'storage.blocks_return_to_level': 8},
+MIN_NONVACUOUS = {'quick': {'storage.level_in_bounds': 200, 'storage.end_level': 200, 'storage.rate_limits': 200, 'storage.reported_fill_level': 150,
+                            'storage.reported_charge_discharge': 150, 'storage.no_simultaneous': 20, 'storage.max_store_duration': 20, 'storage.blocks_return_to_level': 20},
                   'thorough': {'storage.level_in_bounds': 1200, 'storage.reported_fill_level': 900, 'storage.no_simultaneous': 120,
                                'storage.max_store_duration': 120, 'storage.blocks_return_to_level': 120}}
 
